@@ -352,6 +352,26 @@ func checkPoly(c *polyCase) (string, string) {
 				return "ntt-inverse", fmt.Sprintf("invNTTToMont(a)[%d] = %d, interpolation*2^32 gives %d (input has zeros at planted positions)", i, inv[i], dilref.Mod(want[i]*((1<<32)%q)))
 			}
 		}
+		// the inverse transform's documented domain is |coefficient| < q, NOT only reduced values: the same input
+		// unreduced (all +(q-1) makes the eight unreduced layers reach 256(q-1), just below 2^31)
+		raw := a
+		inDomain := true
+		for _, x := range raw {
+			if x <= -q || x >= q {
+				inDomain = false
+			}
+		}
+		if inDomain {
+			dilithium.VerifInvNTTToMont(&raw)
+			for i := range raw {
+				if dilref.Mod(int64(raw[i])) != dilref.Mod(want[i]*((1<<32)%q)) {
+					return "ntt-inverse-unreduced-input", fmt.Sprintf("invNTTToMont on unreduced input (|x| < q) [%d] = %d, interpolation*2^32 gives %d", i, raw[i], dilref.Mod(want[i]*((1<<32)%q)))
+				}
+				if raw[i] <= -q || raw[i] >= q {
+					return "ntt-inverse-unreduced-input", fmt.Sprintf("invNTTToMont output [%d] = %d is not within (-q, q)", i, raw[i])
+				}
+			}
+		}
 	case "chknorm":
 		got := dilithium.VerifPolyChkNorm(&a, c.Bnd)
 		want := 0
@@ -415,7 +435,7 @@ func drawPoly(rt *rapid.T, label string) []int32 {
 
 func TestNTTProducts(t *testing.T) {
 	r := ev.New(t, prop, "TestNTTProducts")
-	r.Rule("rapid polynomial pairs with |coefficient| < q: uniform, all +-(q-1), alternating, sparse +-1 (challenge-like), eta-small, gamma1-sized, t1*2^13-sized, single monomial; oracles: invNTTToMont(ntt(a) o ntt(b)) == schoolbook negacyclic product mod q with |result| < q; ntt(a) slot-wise == a(r_i) (literal evaluation) with |.| < 9q; invNTTToMont(ntt(a)) == a*2^32; the zeta table equals 2^32*1753^brv(k) mod q; non-trivial = every pair (256 coefficients x 3 relations), distinct by content")
+	r.Rule("rapid polynomial pairs with |coefficient| < q: uniform, all +-(q-1), alternating, sparse +-1 (challenge-like), eta-small, gamma1-sized, t1*2^13-sized, single monomial; oracles: invNTTToMont(ntt(a) o ntt(b)) == schoolbook negacyclic product mod q with |result| < q; ntt(a) slot-wise == a(r_i) (literal evaluation) with |.| < 9q; invNTTToMont(ntt(a)) == a*2^32; the transforms applied directly to such data (with 0..6 planted exact zeros; the inverse on reduced AND on unreduced input with |x| < q, e.g. all +(q-1)) == literal evaluation / interpolation; the zeta table equals 2^32*1753^brv(k) mod q; non-trivial = every pair (256 coefficients x 3 relations), distinct by content")
 	// zeta table (finite, exhaustive)
 	z := dilithium.VerifZetas()
 	if r.Shard() == 0 {
@@ -432,7 +452,7 @@ func TestNTTProducts(t *testing.T) {
 		if rapid.IntRange(0, 2).Draw(rt, "direct") == 0 {
 			// dense data with exact zeros planted at drawn slots (odd, even, first, last)
 			c = &polyCase{Kind: "transforms-direct", A: drawPoly(rt, "a")}
-			for k := rapid.IntRange(1, 6).Draw(rt, "zeros"); k > 0; k-- {
+			for k := rapid.IntRange(0, 6).Draw(rt, "zeros"); k > 0; k-- {
 				c.A[rapid.SampledFrom([]int{0, 1, 2, 3, 7, 127, 128, 129, 200, 254, 255, -1}).Draw(rt, "slot")&255] = 0
 			}
 			if c.A[0] == 0 && rapid.Bool().Draw(rt, "randomSlot") {
